@@ -2489,9 +2489,20 @@ providedBy(PyObject* module, PyObject* ob)
     _zic_module_state* rec = _zic_state(module);
     specification_base_class = rec->specification_base_class;
 #endif
-    if (PyObject_TypeCheck(result, specification_base_class) ||
-        PyObject_HasAttrString(result, "extends"))
+    if (PyObject_TypeCheck(result, specification_base_class))
         return result;
+    cp = PyObject_GetAttrString(result, "extends");
+    if (cp != NULL) {
+        Py_DECREF(cp);
+        return result;
+    }
+    if (!PyErr_ExceptionMatches(PyExc_AttributeError)) {
+        /* Like the Python implementation, only a missing attribute means
+           "not a specification". */
+        Py_DECREF(result);
+        return NULL;
+    }
+    PyErr_Clear();
 
     /*
       The object's class doesn't understand descriptors.
@@ -2507,6 +2518,10 @@ providedBy(PyObject* module, PyObject* ob)
 
     result = PyObject_GetAttr(ob, str__provides__);
     if (result == NULL) {
+        if (!PyErr_ExceptionMatches(PyExc_AttributeError)) {
+            Py_DECREF(cls);
+            return NULL;
+        }
         /* No __provides__, so just fall back to implementedBy */
         PyErr_Clear();
         result = implementedBy(module, cls);
@@ -2516,6 +2531,11 @@ providedBy(PyObject* module, PyObject* ob)
 
     cp = PyObject_GetAttr(cls, str__provides__);
     if (cp == NULL) {
+        if (!PyErr_ExceptionMatches(PyExc_AttributeError)) {
+            Py_DECREF(cls);
+            Py_DECREF(result);
+            return NULL;
+        }
         /* The the class has no provides, assume we're done: */
         PyErr_Clear();
         Py_DECREF(cls);
